@@ -121,11 +121,15 @@ impl Mul<f64> for Duration {
             new_val = q * ten.powi(p);
         }
 
-        Duration::from_total_nanoseconds(
-            self.total_nanoseconds()
-                .saturating_mul(new_val as i128)
-                .saturating_div(10_i128.pow(p.try_into().unwrap())),
-        )
+        let total_ns = self.total_nanoseconds();
+        match total_ns.checked_mul(new_val as i128) {
+            Some(scaled) => {
+                Duration::from_total_nanoseconds(scaled / 10_i128.pow(p.try_into().unwrap()))
+            }
+            // The scaled product does not fit in an i128 although the product itself may well be
+            // representable: it is then so large that the float product is just as precise.
+            None => Duration::from_total_nanoseconds((total_ns as f64 * q) as i128),
+        }
     }
 }
 
